@@ -200,6 +200,20 @@ EvalRef(r) ==
                          IF q.out.tag = "exc" THEN q
                          ELSE Quiet([tag |-> "val", v |-> [k |-> "plain", id |-> "True", fid |-> "False",
                                                           t |-> ~Truth(q.out.v)]])
+      \* the namespace object `_` inside expressions: _['n'] and _.getitem('n', 1) look up like a tag does (callables are
+      \* called), _.getitem('n', 0) hands the value over uncalled, _.has_key('n') searches without evaluating,
+      \* _.render(n) renders a value the way a tag would (templates are not used with these forms here)
+      [] r.k \in {"item", "get1"} -> MdGet(r.n)
+      [] r.k = "get0" -> LET i == Find(r.n) IN
+                         IF i = 0 THEN Quiet([tag |-> "exc", e |-> Raised("KeyError", r.n)])
+                         ELSE IF i = -1 THEN Quiet([tag |-> "exc", e |-> Raised("TypeError", NoneMsg)])
+                         ELSE Quiet([tag |-> "val", v |-> ValIn(ns[i], r.n)])
+      [] r.k = "haskey" -> LET i == Find(r.n) IN
+                         IF i = -1 THEN Quiet([tag |-> "exc", e |-> Raised("TypeError", NoneMsg)])
+                         ELSE Quiet([tag |-> "val", v |-> [k |-> "plain", id |-> "True", fid |-> "False", t |-> (i # 0)]])
+      [] r.k = "render" -> LET q == MdRaw(r.n) IN
+                         IF q.out.tag = "exc" THEN q
+                         ELSE IF q.out.v.k = "fn" THEN Invoke(q.out.v) ELSE q
       [] r.k = "attr" -> LET q == MdRaw(r.n) IN
                          IF q.out.tag = "exc" THEN q
                          ELSE IF r.a \in DOMAIN q.out.v.a THEN Quiet([tag |-> "val", v |-> q.out.v.a[r.a]])
@@ -371,6 +385,16 @@ RbProbe ==
          ELSE /\ calls' = Append(calls, "p:" \o q.out.v.id)
               /\ Advance(<<>>) /\ UNCHANGED exc
     /\ UNCHANGED <<tid, plan, ns, level, ninv, ret, evs, result>>
+
+\* <dtml-var expr="...">: the value of an expression is inserted
+RbVarX ==
+    /\ AtNode("vx")
+    /\ LET q == EvalRef(Node.c) IN
+         /\ calls' = q.calls /\ ninv' = q.ninv
+         /\ IF q.out.tag = "exc"
+            THEN exc' = q.out.e /\ UNCHANGED ctl
+            ELSE Advance(PlainText(q.out.v)) /\ UNCHANGED exc
+    /\ UNCHANGED <<tid, plan, ns, level, ret, evs, result>>
 
 \* <dtml-return ref>
 RbReturn ==
@@ -665,7 +689,7 @@ RaiseExc ==
 ---------------------------------------------------------------------------
 
 Next ==
-    \/ CallRet \/ CallExc \/ RbDone \/ RbUnwind \/ RbText \/ RbComment \/ RbVar \/ RbProbe \/ RbReturn
+    \/ CallRet \/ CallExc \/ RbDone \/ RbUnwind \/ RbText \/ RbComment \/ RbVar \/ RbVarX \/ RbProbe \/ RbReturn
     \/ RbIf \/ IfCond \/ SimpleRet \/ SimpleExc \/ RbLet \/ LetBind \/ RbWith \/ RbIn \/ InItem \/ InRet
     \/ RbTry \/ TryRet \/ TryExc \/ RbTryF \/ TryFRet \/ TryFExc \/ RbRaise \/ RaiseRet \/ RaiseExc
 
